@@ -182,6 +182,9 @@ pub fn c14(t: &Trace, r: &mut Report) {
     let mut settled = true;
     let mut clean = true; // no set_time during this run
     let mut last_y = 0.0f64;
+    // "times shorter than two samples select the fastest response (settled within 8 samples)" from *any* state, also in the
+    // middle of a glide (theorem C14.fastest_settles): armed by an honoured fastest set_time, counts samples of a held input
+    let mut fast: Option<(Option<u32>, u32, f64)> = None; // (held input bits, samples so far, output when armed)
     for i in 0..t.ops.len() {
         let op = &t.ops[i];
         if op.is_empty() {
@@ -192,6 +195,7 @@ pub fn c14(t: &Trace, r: &mut Report) {
             sr = fbits(op[2]);
             active = sane_rate(sr) && t.obs[i].first() != Some(&"PANIC");
             eff = -1.0;
+            fast = None;
             if let Some(g) = parse(&t.obs[i]) {
                 coeffs = (g.a1.to_bits(), g.b0.to_bits());
             }
@@ -253,6 +257,7 @@ pub fn c14(t: &Trace, r: &mut Report) {
                         }
                     }
                     eff = tt;
+                    fast = if (tt as f64) * (sr as f64) <= 2.0 * (1.0 - 1e-6) { Some((None, 0, last_y)) } else { None };
                 } else if d < 0.05 - 1e-6 {
                     if now != coeffs {
                         r.fail(i, start, "dead-band", format!("set_time({}) within 0.05 s of the time in effect ({}) changed the filter", tt, eff));
@@ -262,6 +267,7 @@ pub fn c14(t: &Trace, r: &mut Report) {
                     if g.cached.to_bits() == tt.to_bits() {
                         eff = tt;
                     }
+                    fast = None;
                 }
                 coeffs = now;
                 clean = false;
@@ -273,6 +279,24 @@ pub fn c14(t: &Trace, r: &mut Report) {
                     continue;
                 }
                 let y = fbits(t.obs[i][0]) as f64;
+                if let Some((hx, k, y0)) = fast {
+                    if hx.is_none() || hx == Some(x.to_bits()) {
+                        let k = k + 1;
+                        fast = Some((Some(x.to_bits()), k, y0));
+                        if k == 8 {
+                            r.eval();
+                            r.nt(h2(sr as u64, 4));
+                            let alpha = f32::from_bits(coeffs.1) as f64;
+                            let tol = 1e-3 * (y0 - x as f64).abs() + rho((x.abs() as f64).max(y0.abs()), alpha);
+                            if !((y - x as f64).abs() <= tol) {
+                                r.fail(i, start, "fastest-settle", format!("fastest response, input held at {} for 8 samples from output {}: output is {} (not settled, tolerance {:.3e})", x, y0, y, tol));
+                            }
+                            fast = None;
+                        }
+                    } else {
+                        fast = None;
+                    }
+                }
                 if run_x.map(|p| p.to_bits()) == Some(x.to_bits()) {
                     run_n += 1;
                 } else {
